@@ -157,3 +157,7 @@ func TestC20(t *testing.T) {
 func TestC05Histories(t *testing.T) {
 	runProfile(t, profReadback, runOpts{weights: readbackWeights, seedFiles: 3})
 }
+
+func TestC06CLI(t *testing.T) {
+	runProfile(t, profIndex, runOpts{weights: indexWeights, seedFiles: 3})
+}
